@@ -6,6 +6,7 @@ import (
 	"time"
 
 	"github.com/VolantMQ/vlapi/mqttp"
+	persistenceMem "gitlab.com/VolantMQ/vlplugin/persistence/mem"
 )
 
 // C03 / C02: one durable subscriber S (v5, Receive Maximum r; or v3.1.1) under a generated history of
@@ -16,7 +17,7 @@ import (
 // that step go to Coq, which replays them through the writer model and the property oracle.
 
 type c03Op struct {
-	Op  string `json:"op"` // send | ack | close | open | flap (reconnect, read CONNACK only, drop while the broker's writer is blocked)
+	Op  string `json:"op"` // send | ack | close | open | flap (reconnect, read CONNACK only, drop while the broker's writer is blocked) | late (reconnect while a message routed to the offline session is held inside the persistence call)
 	QoS int    `json:"qos,omitempty"`
 	Exp int    `json:"exp,omitempty"` // 0 none, 1 = expiry interval 1 s (always elapsed when checked), 100
 	K   int    `json:"k,omitempty"`
@@ -128,7 +129,12 @@ func (p *c03Prop) Gen(r *Rng, i int, tier string) interface{} {
 				if c.V5 && r.Chance(30) {
 					rm = []int{1, 2, 3, 10}[r.Intn(4)]
 				}
-				c.Ops = append(c.Ops, c03Op{Op: "open", RM: rm})
+				if p.id == "C02" && r.Chance(25) {
+					// the reconnect races with a message that is still on its way into persistence
+					c.Ops = append(c.Ops, c03Op{Op: "late", RM: rm})
+				} else {
+					c.Ops = append(c.Ops, c03Op{Op: "open", RM: rm})
+				}
 				online = true
 			}
 		}
@@ -156,12 +162,29 @@ type c03Out struct {
 func (p *c03Prop) Run(ci interface{}) interface{} {
 	c := ci.(*c03Case)
 	obs := &c03Obs{}
-	b, err := NewBroker(BrokerOpts{})
+	var gate *persistGate
+	bo := BrokerOpts{}
+	for _, op := range c.Ops {
+		if op.Op == "late" {
+			mp, err := persistenceMem.Load(nil, nil)
+			if err != nil {
+				obs.Err = err.Error()
+				return obs
+			}
+			gate = newPersistGate(mp)
+			bo.Persist = gate
+			break
+		}
+	}
+	b, err := NewBroker(bo)
 	if err != nil {
 		obs.Err = err.Error()
 		return obs
 	}
 	defer b.Drop()
+	if gate != nil {
+		defer gate.Release()
+	}
 	ver := mqttp.ProtocolV311
 	if c.V5 {
 		ver = mqttp.ProtocolV50
@@ -213,7 +236,7 @@ func (p *c03Prop) Run(ci interface{}) interface{} {
 	wSeen := 0
 	var outstanding []c03Out
 	pubID := uint16(0)
-	curRM := c.RM       // Receive Maximum of the current connection of S
+	curRM := c.RM        // Receive Maximum of the current connection of S
 	queuedMaybe := false // messages may wait in the broker's queues (not yet transmitted for the first time)
 
 	routeBarrier := func() bool {
@@ -396,6 +419,71 @@ func (p *c03Prop) Run(ci interface{}) interface{} {
 			}
 			obs.Steps = append(obs.Steps, c03Step{Ev: fmt.Sprintf("(EOpen %d%%Z)", rm), Wire: []c03Wire{}, Blind: true})
 			st.Ev = "(EClose 0%Z)"
+		case "late":
+			// a QoS 1 message is routed to the OFFLINE session and is still on its way into persistence (the
+			// routing worker is held inside PacketStoreQoS12) while the client reconnects; then the worker goes on.
+			// To the session this is: a message handed over while offline, then a reconnect.
+			if online || gate == nil {
+				continue
+			}
+			nSent++
+			tag := nSent
+			gate.Arm("S")
+			acks := pa.CountOthers(mqttp.PUBACK)
+			_ = pa.SendL(mkPublish(mqttp.ProtocolV50, "t", []byte{byte(tag)}, 1, false, uint16(10000+k)))
+			if !gate.WaitEntered(5*time.Second) || !pa.WaitFor(5*time.Second, func() bool {
+				n := 0
+				for _, o := range pa.Others {
+					if o.Type() == mqttp.PUBACK {
+						n++
+					}
+				}
+				return n > acks
+			}) {
+				obs.Err = fmt.Sprintf("step %d: the offline publish did not reach persistence / was not acknowledged", k)
+				break
+			}
+			obs.Steps = append(obs.Steps, c03Step{Ev: fmt.Sprintf("(ESend 0%%Z (mkPkt (KPub 1) 0 %d None false))", tag), Wire: []c03Wire{}})
+			if c.V5 && op.RM < len(outstanding)+1 {
+				op.RM = len(outstanding) + 1
+			}
+			l0 := gate.Loads("S")
+			type cres struct {
+				a   *Auto
+				err error
+			}
+			done := make(chan cres, 1)
+			go func() { a, err := connectS(op.RM, false); done <- cres{a, err} }()
+			// the reconnect either gets as far as loading the persisted backlog (then the held message is late), or
+			// it waits for the routing worker: in both cases the worker is let go after a moment
+			dl := time.Now().Add(300 * time.Millisecond)
+			for time.Now().Before(dl) && gate.Loads("S") == l0 {
+				time.Sleep(time.Millisecond)
+			}
+			gate.Release()
+			var cr cres
+			select {
+			case cr = <-done:
+			case <-time.After(6 * time.Second):
+				cr.err = fmt.Errorf("no CONNACK")
+			}
+			if cr.err != nil {
+				obs.Err = fmt.Sprintf("step %d: reconnect: %v", k, cr.err)
+				break
+			}
+			s = cr.a
+			seenS = 0
+			pings = 0
+			online = true
+			rm := op.RM
+			if !c.V5 {
+				rm = 65535
+			}
+			curRM = rm
+			st.Ev = fmt.Sprintf("(EOpen %d%%Z)", rm)
+			if !routeBarrier() {
+				obs.Err = fmt.Sprintf("step %d: routing barrier timed out", k)
+			}
 		case "open":
 			if online {
 				continue
@@ -443,7 +531,7 @@ func (p *c03Prop) Run(ci interface{}) interface{} {
 				addOut(&outstanding, c03Out{r.w.ID, mqttp.PUBCOMP})
 			}
 		}
-		if op.Op == "open" && online && (!c.V5 || len(outstanding) < curRM) {
+		if (op.Op == "open" || op.Op == "late") && online && (!c.V5 || len(outstanding) < curRM) {
 			queuedMaybe = false // the quota was not exhausted after the barrier: nothing is left waiting
 		}
 		obs.Steps = append(obs.Steps, st)
@@ -483,10 +571,13 @@ func (p *c03Prop) Coq(ci interface{}, oi interface{}) string {
 
 func (p *c03Prop) Class(ci interface{}, oi interface{}) (string, bool) {
 	c := ci.(*c03Case)
-	rec, exp := false, false
+	rec, exp, late := false, false, false
 	for _, op := range c.Ops {
-		if op.Op == "open" {
+		if op.Op == "open" || op.Op == "late" {
 			rec = true
+		}
+		if op.Op == "late" {
+			late = true
 		}
 		if op.Exp == 1 {
 			exp = true
@@ -498,6 +589,9 @@ func (p *c03Prop) Class(ci interface{}, oi interface{}) (string, bool) {
 	}
 	if exp {
 		l += "+expiry"
+	}
+	if late {
+		l += "+late"
 	}
 	return l, true
 }
